@@ -15,6 +15,7 @@
 -/
 import Mhd.Proofs.WSFragSend
 import Mhd.Proofs.WSFragOut
+import Mhd.Proofs.WSEncDec
 
 namespace Mhd.C19
 open Mhd.WS
@@ -383,6 +384,47 @@ example : WS.init 0 0 1000 = some ws0 ∧
     (feed false ws0 [0x81, 0x85, 1, 2, 3, 4, 0x69, 0x67]).1.step = 17 ∧
     (feed false ws0 [0x81, 0x85, 1, 2, 3, 4, 0x69, 0x67]).1.payloadIndex = 2 := by
   refine ⟨rfl, ?_, ?_, ?_⟩ <;> decide
+
+/-! ## (v) encoder and decoder share the stream object, not state
+
+  An application answers a ping or sends its own data while a large frame is still arriving:
+  it calls `MHD_websocket_encode_*` on the same `struct MHD_WebSocketStream` between two
+  `MHD_websocket_decode` calls.  The encoders are modelled as functions that return the stream
+  (`EncRes.ws`); the decoder as a function of the stream. -/
+
+/-- Every encoder of the public API (`Enc`: text with or without `utf8_step`, binary, ping, pong,
+    close; any arguments, successful or not) leaves every field of the stream as it was — decode
+    step, frame header and its size, payload size and index, **mask key**, data / control
+    buffers, both UTF-8 steps, data type, validity, configuration — except the position in the
+    rng script (a client draws the 4 key bytes). -/
+theorem encode_preserves_decoder_state (ws : WS) (e : Enc) : ∃ r, (e.run ws).ws = { ws with rng := r } :=
+  Enc.run_ws ws e
+
+/-- `sessionI ws ops`: what the application sees of the decoder (as `session`) when `ops` mixes
+    received chunks (`Op.feed`) with encoder calls on the same stream (`Op.enc`), any number, at
+    any place — also between the pieces of one incoming frame.  It is what it sees without the
+    encoder calls, and (by split independence) what it sees for the received bytes in one piece.
+    `NoDraw`: the decoder itself does not draw from the rng, i.e. not (client role **and**
+    `GENERATE_CLOSE_FRAMES_ON_ERROR`).  In that excluded combination the *key* of a generated
+    close frame comes from the rng, whose position the application's own encoder calls advance,
+    so equality of the returned bytes is not to be expected there. -/
+theorem decode_interleaved_with_encode_independent (ws : WS) (hi : Inv ws) (hq : sil ws = 0) (hv : ws.validity ≠ 0)
+    (hg : NoDraw ws) (ops : List Op) :
+    sessionI ws ops = session ws (feedsOf ops) ∧ sessionI ws ops = session ws [(feedsOf ops).flatten] := by
+  have h := sessionI_eq_session ws hg ops
+  exact ⟨h, by rw [h]; exact split_independent ws hi hq hv _⟩
+
+/-- non-vacuity (and the scenario of a shared `mask_key`): a client receives the ping "abcdef" in
+    two pieces and encodes a pong and a text frame of its own (keys 01 02 03 04, 05 06 07 08) in
+    between: the ping arrives intact, the mask key of the stream is still the (zero) key of the
+    incoming frame -/
+example :
+    sessionI exClient [.feed [0x89, 0x06, 0x61, 0x62], .enc (.pong [0x61]), .enc (.text [0x68] 0 none), .feed [0x63, 0x64, 0x65, 0x66]] =
+      [(9, some [0x61, 0x62, 0x63, 0x64, 0x65, 0x66, 0], 6)] ∧
+    ((Enc.pong [0x61]).run (feed false exClient [0x89, 0x06, 0x61, 0x62]).1).frame = some [0x8A, 0x81, 1, 2, 3, 4, 0x60, 0] ∧
+    ((Enc.pong [0x61]).run (feed false exClient [0x89, 0x06, 0x61, 0x62]).1).ws.maskKey = [0, 0, 0, 0] ∧
+    NoDraw exClient := by
+  refine ⟨?_, ?_, ?_, Or.inl ?_⟩ <;> decide
 
 /-! ## (iii) RFC 6455 violations -/
 
